@@ -88,6 +88,9 @@ func (p *pkg) intConsts(typeName string) [][2]string {
 	return out
 }
 
+// constEnv: values of the named integer constants known so far (filled by typedConsts)
+var constEnv = map[string]int64{}
+
 func evalInt(e ast.Expr) (int64, bool) {
 	switch e := e.(type) {
 	case *ast.BasicLit:
@@ -95,17 +98,51 @@ func evalInt(e ast.Expr) (int64, bool) {
 			v, err := strconv.ParseInt(e.Value, 0, 64)
 			return v, err == nil
 		}
+	case *ast.Ident:
+		v, ok := constEnv[e.Name]
+		return v, ok
+	case *ast.CallExpr:
+		// a conversion to an integer type of a constant: ControlField2(1 << 7)
+		if id, ok := e.Fun.(*ast.Ident); ok && len(e.Args) == 1 {
+			if w, isType := widths[id.Name]; isType {
+				if v, ok := evalInt(e.Args[0]); ok && v >= 0 && v < 1<<uint(w) {
+					return v, true
+				}
+			}
+		}
 	case *ast.BinaryExpr:
 		a, ok1 := evalInt(e.X)
 		b, ok2 := evalInt(e.Y)
 		if ok1 && ok2 {
 			switch e.Op {
 			case token.SHL:
-				return a << uint(b), true
+				if b >= 0 && b < 62 {
+					return a << uint(b), true
+				}
+			case token.SHR:
+				if b >= 0 && b < 62 {
+					return a >> uint(b), true
+				}
 			case token.OR:
 				return a | b, true
+			case token.AND:
+				return a & b, true
+			case token.XOR:
+				return a ^ b, true
 			case token.ADD:
 				return a + b, true
+			case token.SUB:
+				return a - b, true
+			case token.MUL:
+				return a * b, true
+			case token.QUO:
+				if b != 0 {
+					return a / b, true
+				}
+			case token.REM:
+				if b != 0 {
+					return a % b, true
+				}
 			}
 		}
 	case *ast.ParenExpr:
